@@ -240,6 +240,16 @@ def generated(quick):
         add('macro-mixed-chain/%d' % n, m + 'int b = sizeof(int M%d(O%d));\n' % (n, n))
         s2 = '#define S0(x) #x x\n' + ''.join('#define S%d(x) S%d(x)\n' % (k, k - 1) for k in range(1, n + 1))
         add('macro-stringify-chain/%d' % n, s2 + 'char c[] = S%d();\n' % n)
+    # arithmetic on address constants in static initialisers: every operand order and nesting of a constant and an address (seeded round 8 report)
+    aforms = ('K + (long)&ga[I]', '(long)&ga[I] + K', 'K + &ga[I]', '&ga[I] + K', '&ga[I] - K', 'K + (K + (long)&ga[I])', '(K + (long)&ga[I]) + K', '(long)&ga[I] - K',
+              'K - (long)&ga[I]', '(long)&gs.m + K', 'K + (long)&gs.m', 'K + (char *)&gs.m', '(char *)&gs.m + K', 'K + (long)ga', 'K + (long)gf', '(long)gf + K', 'K + (long)"ab"',
+              'K + ("ab" + K)', '(long)&ga[I] + (long)&ga[I]', '(long)&ga[I] - (long)&ga[0]', '&ga[I] - &ga[0]', 'K * (long)&ga[I]', '(long)&ga[I] * K', '(long)&ga[I] | K',
+              'K + (long)&*&ga[I]', 'K + (long)(&ga[I] + K)', '-(long)&ga[I]', '!(long)&ga[I]', '(long)&ga[I] ? K : 0', 'K ? (long)&ga[I] : 0', '(int)(long)&ga[I] + K', 'K + (unsigned char)(long)&ga[I]')
+    for af in aforms:
+        for kk in ('0', '1', '4', '-1'):
+            for ii in ('0', '1'):
+                add('address-constant-arithmetic/' + af.replace(' ', ''), 'int ga[4]; struct { int n, m; } gs; int gf(void);\nlong gv = %s;\nvoid f(void) { static long lv = %s; }\n' % (
+                    af.replace('K', kk).replace('I', ii), af.replace('K', kk).replace('I', ii)))
     for n in (31, 32, 33, 64, 100):
         add('designators/%d' % n, 'struct s { ' * 1 + 'int x; };\nint a' + '[2]' * n + ' = { ' + '[0]' * n + ' = 1 };\n')
         add('nested-init-struct/%d' % n, ''.join('struct t%d { ' % i for i in range(n)) + 'int x; ' + ''.join('} m%d; ' % (n - 1 - i) for i in range(n - 1)) + '} v = ' + '{' * n + '1' + '}' * n + ';\n')
